@@ -178,24 +178,37 @@ Definition readRawHeaders (buf : bytes) : R (option (bytes * nat)) :=
 (* first part of next(): !s.initialized *)
 Inductive init_res :=
 | IEmpty              (* block starts with CRLF: s.r = 2, next returns false with s.err = nil *)
-| INeedMore           (* no CRLFCRLF: s.err = ErrNeedMore *)
+| INeedMore           (* blockEnd = 0 and no CRLFCRLF in the buffer: s.err = ErrNeedMore *)
 | IStartSpace         (* "headers cannot start with space or tab" *)
+| IBadBlockEnd        (* blockEnd > 0 and the block does not end with an empty CRLF line *)
 | IReady (b : bytes). (* s.b truncated, s.r = 0 *)
 
+(* `!(blockEnd < 3 || blockEnd > len(b) || b[blockEnd-3] != '\n' || b[blockEnd-2] != '\r')` *)
+Definition block_end_ok (b : bytes) (blockEnd : nat) : R bool :=
+  if (blockEnd <? 3) || (length b <? blockEnd) then Ok false
+  else do c3 <- idx b (blockEnd - 3);
+       if negb (N.eqb c3 LF) then Ok false
+       else do c2 <- idx b (blockEnd - 2); Ok (N.eqb c2 CR).
+
+Inductive block_res := BlkNeed | BlkBad | BlkOk (b : bytes).
+
+(* When the caller delimited the block (blockEnd > 0: RequestHeader.parseHeaders) the decision is made from the
+   block alone; with blockEnd = 0 (ResponseHeader.parseHeaders, parseTrailer) the whole buffer is searched for
+   CRLFCRLF. *)
 Definition scan_init (b : bytes) (blockEnd : nat) : R init_res :=
   if has_prefix strCRLF b then Ok IEmpty
   else
-    do trusted <- (if (4 <=? blockEnd) && (blockEnd <=? length b)
-                   then do t <- slice b (blockEnd - 4) blockEnd; Ok (beq t strCRLFCRLF)
-                   else Ok false);
-    do ob <- (if trusted then do x <- slice b 0 blockEnd; Ok (Some x)
+    do ob <- (if 0 <? blockEnd
+              then do good <- block_end_ok b blockEnd;
+                   if good then do x <- slice b 0 blockEnd; Ok (BlkOk x) else Ok BlkBad
               else match index_sub strCRLFCRLF b with
-                   | None => Ok None
-                   | Some i => do x <- slice b 0 (i + 4); Ok (Some x)
+                   | None => Ok BlkNeed
+                   | Some i => do x <- slice b 0 (i + 4); Ok (BlkOk x)
                    end);
     match ob with
-    | None => Ok INeedMore
-    | Some b' =>
+    | BlkNeed => Ok INeedMore
+    | BlkBad => Ok IBadBlockEnd
+    | BlkOk b' =>
         match b' with
         | c :: _ => if is_sp_ht c then Ok IStartSpace else Ok (IReady b')
         | [] => Ok (IReady b')
